@@ -37,7 +37,7 @@ func main() {
 	r := vlib.NewRand(res.Seed)
 	switch mode {
 	case "c01":
-		ncfg, npeers := 14, 12
+		ncfg, npeers := 60, 12
 		if res.Thorough() {
 			ncfg, npeers = 0, 30
 		}
@@ -62,7 +62,7 @@ func main() {
 			}
 		}
 	case "c02":
-		ncfg, npeers := 12, 8
+		ncfg, npeers := 24, 8
 		if res.Thorough() {
 			ncfg, npeers = 0, 16
 		}
@@ -91,7 +91,7 @@ func main() {
 	case "c04", "c06", "c07":
 		runLifeMode(mode, r, keys)
 	case "c08":
-		ncase := 8
+		ncase := 16
 		if res.Thorough() {
 			ncase = 80
 		}
